@@ -10,9 +10,11 @@
 EXTENDS MCBase
 
 MsgrSets  == {{}, {[d |-> "d1", addr |-> M1]}, {[d |-> "d1", addr |-> Zero32]}}
-LimitSets == IF Thorough THEN {{}, {[denom |-> MINT, amt |-> 0]}, {[denom |-> MINT, amt |-> 1]}, {[denom |-> MINT, amt |-> 2]},
-                               {[denom |-> "OTHER", amt |-> 0]}, {[denom |-> MINT, amt |-> -1]}}
-                         ELSE {{}, {[denom |-> MINT, amt |-> 1]}, {[denom |-> MINT, amt |-> 2]}}
+\* limits live under the lower-cased denom (that is where SetMaxBurnAmountPerMessage puts them)
+LK == MintLower
+LimitSets == IF Thorough THEN {{}, {[denom |-> LK, amt |-> 0]}, {[denom |-> LK, amt |-> 1]}, {[denom |-> LK, amt |-> 2]},
+                               {[denom |-> "OTHER", amt |-> 0]}, {[denom |-> LK, amt |-> -1]}}
+                         ELSE {{}, {[denom |-> LK, amt |-> 1]}, {[denom |-> LK, amt |-> 2]}}
 MaxBodies == IF Thorough THEN {131, 132, 133} ELSE {131, 132}
 Balances  == IF Thorough THEN {0, 1, 3} ELSE {0, 3}
 Flags     == IF Thorough THEN BOOLEAN \X BOOLEAN ELSE {<<FALSE, FALSE>>, <<TRUE, FALSE>>, <<FALSE, TRUE>>}
@@ -24,7 +26,7 @@ MCInit == {[BaseState EXCEPT !.pausedBM = fl[1], !.pausedSR = fl[2], !.msgrs = m
 Amts    == IF Thorough THEN {ABSENT, -1, 0, 1, 2, 3} ELSE {ABSENT, 0, 1, 2, 3}
 MRcpts  == IF Thorough THEN {B("j", "x1"), Pad("a2"), Zero32, Empty, Bytes(31, "junk"), Bytes(31, "zero"), Bytes(33, "junk")}
                        ELSE {B("j", "x1"), Zero32, Bytes(31, "junk")}
-Toks    == IF Thorough THEN {MINT, "MINT_UP", "MINT_FOLD", "OTHER", "EMPTY"} ELSE {MINT, "MINT_UP", "OTHER"}
+Toks    == IF Thorough THEN {MINT, "MINT_UP", "MINT_LOW", "MINT_FOLD", "OTHER", "EMPTY"} ELSE {MINT, "MINT_UP", "OTHER"} \cup (IF MintLower = MINT THEN {} ELSE {"MINT_LOW"})
 Dsts    == IF Thorough THEN {"d1", "d2"} ELSE {"d1"}
 Callers == IF Thorough THEN {B("j", "x2"), Zero32, Empty, Bytes(31, "junk"), Bytes(33, "zero")} ELSE {B("j", "x2"), Zero32, Bytes(31, "junk")}
 Froms   == IF Thorough THEN {"a1", "GARBAGE"} ELSE {"a1"}
@@ -56,6 +58,6 @@ OutboundContent ==
            w == SentMsgs(last'.evs)[1] IN
        /\ w = WireMsg(0, NOBLE, m.dst, st.nextNonce, ModulePadded, MsgrOf(st, m.dst).addr,
                       IF IsDepC(m) THEN m.caller ELSE Zero32,
-                      BurnBody(0, KTok(MINT), m.mrcpt, m.amt, Pad(m.from)))
+                      BurnBody(0, KTok(MintLower), m.mrcpt, m.amt, Pad(m.from)))
        /\ last'.resp.nonce = st.nextNonce]_vars
 =============================================================================
